@@ -17,7 +17,7 @@ import (
 
 const c07Foreign = "Emoji"
 
-var c07Entries = []string{"registry", "json-top", "json-item", "json-list", "json-list-after-unknown", "json-list-after-untyped", "gob-top", "gob-nested", "json-typeonly", "gob-top-typeonly", "gob-nested-typeonly"}
+var c07Entries = []string{"registry", "json-top", "json-item", "json-list", "json-list-after-unknown", "json-list-after-untyped", "json-list-bare", "gob-top", "gob-nested", "json-typeonly", "gob-top-typeonly", "gob-nested-typeonly"}
 
 // marker properties written into the document / value for one vocabulary name
 type c07Markers struct {
@@ -279,6 +279,38 @@ func c07Produce(entry, name string, ti vocab.TypeInfo, known bool) (it ap.Item, 
 			}
 		}
 		return nil, nil
+	case "json-list-bare":
+		// a list of one written as the bare member ("tag":{...}, which ActivityStreams allows for any property): in a list property
+		// of an object, of an activity and as the items of a collection
+		var found ap.Item
+		for k, outerDoc := range []map[string]interface{}{
+			{"id": "https://example.com/outer", "type": "Note", "tag": doc},
+			{"id": "https://example.com/outer", "type": "Create", "cc": doc},
+			{"id": "https://example.com/outer", "type": "Collection", "items": doc},
+		} {
+			b, _ := json.Marshal(outerDoc)
+			outer, err := ap.UnmarshalJSON(b)
+			if err != nil || outer == nil {
+				return nil, fmt.Errorf("outer document %d: %v", k, err)
+			}
+			var l ap.ItemCollection
+			switch o := outer.(type) {
+			case *ap.Object:
+				l = o.Tag
+			case *ap.Activity:
+				l = o.CC
+			case *ap.Collection:
+				l = o.Items
+			}
+			if len(l) != 1 {
+				return nil, nil
+			}
+			if k > 0 && (vocab.GoTypeName(l[0]) != vocab.GoTypeName(found) || l[0].GetLink() != found.GetLink()) {
+				return nil, fmt.Errorf("the bare member arrived as %T in one list property and as %T in another", found, l[0])
+			}
+			found = l[0]
+		}
+		return found, nil
 	case "json-list-after-untyped":
 		// the same list position, behind an untyped sibling that says the same things under the same id (an earlier rendering of the
 		// same thing by a server that wrote no type): the typed member is a different value and must arrive as it would alone
@@ -363,7 +395,7 @@ func TestC07(t *testing.T) {
 	r := ev.Open(t, "C07")
 	defer r.Close(t)
 	r.Rule("exhaustive: every vocabulary type name of the ground-truth table (written from the ActivityStreams vocabulary), the generic names, the empty name and three names outside the vocabulary " +
-		"x {registry, JSON top level, JSON nested in an item property, JSON nested in a list, the same behind a sibling of a type outside the vocabulary and behind an untyped sibling with the same id and text, gob top level, gob nested, and a value that says nothing but its type through JSON, gob top level and gob nested} x {hooks unset, hooks set}. Oracle: concrete Go type == ground truth; decoded id + one " +
+		"x {registry, JSON top level, JSON nested in an item property, JSON nested in a list, the same behind a sibling of a type outside the vocabulary and behind an untyped sibling with the same id and text, a list of one written as the bare member, gob top level, gob nested, and a value that says nothing but its type through JSON, gob top level and gob nested} x {hooks unset, hooks set}. Oracle: concrete Go type == ground truth; decoded id + one " +
 		"object-core marker + one type-specific marker; family list predicates, IsObject/IsLink/IsCollection and the family's On helper agree with the vocabulary's family; outside the vocabulary without hooks: " +
 		"error, nothing or the untyped *Object fallback; with hooks: identical outcome for vocabulary names. non-trivial = cell with a vocabulary name; distinct by cell")
 	r.Note("only_enumerated_layers", true)
@@ -513,7 +545,7 @@ func TestC07(t *testing.T) {
 							r.Report("cells", cell, key+" foreign-wrong-type", fmt.Sprintf("%s: a name outside the vocabulary produced %T", cell, it), cell)
 						}
 					}
-				} else if entry != "registry" && entry != "json-list" && entry != "json-list-after-unknown" && entry != "json-list-after-untyped" && entry != "json-item" && entry != "json-top" {
+				} else if entry != "registry" && entry != "json-list" && entry != "json-list-after-unknown" && entry != "json-list-after-untyped" && entry != "json-list-bare" && entry != "json-item" && entry != "json-top" {
 					_ = it
 				} else if err != nil || vocab.GoTypeName(it) != "Place" {
 					r.Report("cells", cell, key+" hook-ignored", fmt.Sprintf("%s: the installed hooks handle this name, got %T err=%v", cell, it, err), cell)
